@@ -19,6 +19,7 @@ import (
 	rpcstatus "google.golang.org/genproto/googleapis/rpc/status"
 	"google.golang.org/grpc"
 	"google.golang.org/grpc/codes"
+	"google.golang.org/grpc/peer"
 	"google.golang.org/grpc/status"
 	"google.golang.org/protobuf/types/known/anypb"
 )
@@ -147,6 +148,29 @@ type vP4Srv struct {
 	conns      int32
 	nUpdates   int
 	onWrite    func(n int)
+	// crash-point simulation (see vBess): writes of killed clients are refused and not applied
+	killed  map[string]bool
+	clients map[string]int
+	killAt  int
+	killCnt int
+	onKill  func(client string)
+}
+
+func (s *vP4Srv) killClients() {
+	s.mu.Lock()
+	if s.killed == nil {
+		s.killed = map[string]bool{}
+	}
+	for c := range s.clients {
+		s.killed[c] = true
+	}
+	s.mu.Unlock()
+}
+
+func (s *vP4Srv) armKill(j int, cb func(client string)) {
+	s.mu.Lock()
+	s.killAt, s.killCnt, s.onKill = j, 0, cb
+	s.mu.Unlock()
 }
 
 type vP4PacketOut struct {
@@ -248,7 +272,7 @@ func (s *vP4Srv) snapshot() vP4Snap {
 	for id, cells := range s.meterCells {
 		name := s.meters[id].Preamble.Name
 		for idx, c := range cells {
-			if c.Configured {
+			if c.Configured && (c.Cir != 0 || c.Cburst != 0 || c.Pir != 0 || c.Pburst != 0) {
 				if snap.Meters[name] == nil {
 					snap.Meters[name] = map[int64]vP4Meter{}
 				}
@@ -604,7 +628,32 @@ func (s *vP4Srv) describeUpdate(u *p4.Update) string {
 
 func (v *vP4Svc) Write(ctx context.Context, req *p4.WriteRequest) (*p4.WriteResponse, error) {
 	s := v.s
+	client := ""
+	if pr, ok := peer.FromContext(ctx); ok && pr.Addr != nil {
+		client = pr.Addr.String()
+	}
 	s.mu.Lock()
+	if s.clients == nil {
+		s.clients = map[string]int{}
+	}
+	s.clients[client]++
+	if s.killAt > 0 && !s.killed[client] {
+		s.killCnt++
+		if s.killCnt == s.killAt {
+			if s.killed == nil {
+				s.killed = map[string]bool{}
+			}
+			s.killed[client] = true
+			s.killAt = 0
+			if s.onKill != nil {
+				go s.onKill(client)
+			}
+		}
+	}
+	if s.killed[client] {
+		s.mu.Unlock()
+		return nil, status.Error(codes.Unavailable, "verif: this agent incarnation was killed")
+	}
 	s.nwrite++
 	n := s.nwrite
 	rec := vP4WriteRec{Seq: vTick(), N: n}
